@@ -145,16 +145,18 @@ int zv_step_fault(int nalt) {
     if (nalt > g_trace[mystep].nwake) { g_trace[mystep].nwake = nalt; g_last_nwake = nalt; }
     return g_fault_w;
 }
+static int g_total_faults = 0;
+int zv_total_faults(void) { return g_total_faults; }
 int zv_thread_faults(void) { return zv_my_faults; }
 static int g_create_countdown = 0;
 void zv_fail_create_at(int k) { g_create_countdown = k; }
 
 int zv_pthread_create(pthread_t* t, const pthread_attr_t* a, void* (*f)(void*), void* x) {
     int tid; (void)a;
-    if (g_create_countdown > 0 && --g_create_countdown == 0) { zv_my_faults++; return 11 /* EAGAIN */; }
+    if (g_create_countdown > 0 && --g_create_countdown == 0) { zv_my_faults++; g_total_faults++; return 11 /* EAGAIN */; }
     if (P.fault_enable && g_step > 0) {
         int w; enter(); w = zv_step_fault(0); g_fault_creates++; (void)zv_step_fault(g_fault_creates + 2); leave();
-        if (w == g_fault_creates + 1) { zv_my_faults++; return 11 /* EAGAIN */; }
+        if (w == g_fault_creates + 1) { zv_my_faults++; g_total_faults++; return 11 /* EAGAIN */; }
     }
     tid = g_next_worker++;
     *t = (pthread_t)(1000 + tid);
